@@ -1490,7 +1490,7 @@ func (x *lcRunner) gen0() lcOp {
 		}
 	}
 	// two transactions confirmed in the same block: concurrent spend handlers
-	if rng.Intn(100) < 12 {
+	if rng.Intn(100) < 20 {
 		type cand struct {
 			k    int
 			kind string
